@@ -13,6 +13,7 @@ for d in seeded/*/ mutants/*/; do
     C16-f|C11-e|C08-e) p="${n%%-*} C01";; C10-f) p="C10 C08";; C01-e) p="C01 C02 C15";;
     C18-g|C04-g|C06-g|C03-h|C02-h|C13-h|C09-g|C17-g) p="${n%%-*} C20";;   # round 4: breaks only under concurrent use; the owning check is C20
     C13-i|C15-j) p="${n%%-*} C09";;   # round 5: lost gradient only after a reset between forward and backward (outside C08's provisos); the same change makes BackPropagate panic -> C09
+    C01-p) p="C01 C02";;   # round 8: the StdAlong rule at a spread below 1e-12 - single-operation values are C02's
     C*) p=${n%%-*};;
     revert-fix1) p="C01 C13 C15 C11";; revert-fix2) p=C02;; revert-fix3) p=C02;; revert-fix4) p="C02 C13 C15";;
     revert-fix5) p=C10;; revert-fix6) p="C14 C09";; revert-fix7) p=C09;; revert-fix8) p=C09;; revert-fix9) p="C15 C02";;
